@@ -439,7 +439,6 @@ func ConstSliceNeeds(fn *ssa.Function, pi int) map[string]int64 {
 	return out
 }
 
-
 // mapValueSource: v is (or, through phis, may be) the pointer-typed result of a
 // map lookup; returns one such lookup.
 func mapValueSource(v ssa.Value) *ssa.Lookup {
@@ -486,7 +485,6 @@ func lookupOkGuard(lk *ssa.Lookup) Guard {
 		return 0, false
 	}}
 }
-
 
 // indexPlusConst: v is strings.Index(s, sep) or that plus a constant.
 func indexPlusConst(v ssa.Value) (*ssa.Call, int64, bool) {
